@@ -271,20 +271,47 @@ def r24e(ctx, run):
         """tree by the documented rules: tuples ('bin', op, l, r) / ('deref', x) / name"""
         pos = [0]
 
-        def primary():
+        def postfix(x, allow_deref):
+            # call, index, member and `.try` chain on what they follow, in the order written; so does a dereference where one is allowed
+            while pos[0] < len(tokens):
+                t = tokens[pos[0]]
+                if t == "^" and allow_deref:
+                    pos[0] += 1
+                    x = ("deref", x)
+                elif t == "(":
+                    pos[0] += 1
+                    args = []
+                    while tokens[pos[0]] != ")":
+                        args.append(expr(0))
+                        if tokens[pos[0]] == ",":
+                            pos[0] += 1
+                    pos[0] += 1
+                    x = ("call", x, tuple(args))
+                elif t == "[":
+                    pos[0] += 1
+                    i_ = expr(0)
+                    pos[0] += 1
+                    x = ("index", x, i_)
+                elif t == "." and pos[0] + 1 < len(tokens) and tokens[pos[0] + 1] == "try":
+                    pos[0] += 2
+                    x = ("try", x)
+                elif t == ".":
+                    x = ("path", x, tokens[pos[0] + 1])
+                    pos[0] += 2
+                else:
+                    break
+            return x
+
+        def primary(allow_deref):
             # a prefix operator takes the operand that follows it WITHOUT that operand's trailing `^`: `^foo^` is `(^foo)^`
             x = tokens[pos[0]]
             pos[0] += 1
             if x in PREFIX:
-                return ("pre", x, primary())
-            return x
+                x = ("pre", x, primary(False))
+            return postfix(x, allow_deref)
 
         def operand():
-            x = primary()
-            while pos[0] < len(tokens) and tokens[pos[0]] == "^":
-                pos[0] += 1
-                x = ("deref", x)
-            return x
+            return primary(True)
 
         def expr(minlv):
             l = operand()
@@ -302,7 +329,7 @@ def r24e(ctx, run):
             self.frames = [[]]
 
     def run_parser(tokens):
-        kinds = [spell2kind.get(t, "Ident") if t not in ("a", "b", "c", "d") else "Ident" for t in tokens]
+        kinds = [spell2kind.get(t, "Ident") if t not in ("a", "b", "c", "d", "x", "y", "f") else "Ident" for t in tokens]
         kinds = ["Caret" if t == "^" else k for t, k in zip(tokens, kinds)]
         mp = MockParser(list(zip(kinds, tokens)))
         P = Obj("Parser")
@@ -330,6 +357,12 @@ def r24e(ctx, run):
         def m_start(i, r, a):
             mp.frames.append([])
             return Obj("Marker")
+
+        def m_expect(i, r, a):
+            want = a[0].last if isinstance(a[0], Variant) else a[0]
+            if cur() != want:
+                raise Panic("a syntax error is reported (%s expected, %s found) on a well-formed expression" % (want, cur()))
+            return m_bump(i, r, a)
 
         def complete(i, r, a):
             kind = a[1].last if isinstance(a[1], Variant) else str(a[1])
@@ -377,6 +410,7 @@ def r24e(ctx, run):
         it = SymInterp(resolver=resolver, macros={"assert": no_assert},
                        methods={"at": m_at, "at_set": m_at_set, "at_ahead": m_at_ahead, "bump": m_bump, "start": m_start, "complete": complete, "precede": precede,
                                 "at_eof": lambda i, r, a: cur() is None, "kind": m_kind, "peek": m_kind,
+                                "expect": m_expect, "expect_with_no_skip": m_expect, "at_default_recovery_set": lambda i, r, a: False,
                                 "contains": lambda i, r, a: (a[0].last if isinstance(a[0], Variant) else a[0]) in r if isinstance(r, frozenset) else False,
                                 "expected_syntax_name": lambda i, r, a: Term("guard"),
                                 # every evaluated token sequence is a well-formed expression: reaching an error report is already the wrong parse
@@ -415,6 +449,14 @@ def r24e(ctx, run):
                 return ("pre", ch[0][1], simp(ch[1]))
             if kind == "BinaryExpr" and len(ch) == 3:
                 return ("bin", ch[1][1], simp(ch[0]), simp(ch[2]))
+            if kind == "Call" and len(ch) == 2 and ch[1][0] == "node" and ch[1][1] == "ArgList":
+                return ("call", simp(ch[0]), tuple(simp(c[2][0]) for c in ch[1][2] if c[0] == "node" and c[1] == "Arg" and len(c[2]) == 1))
+            if kind == "IndexExpr" and len(ch) == 4 and ch[0][0] == "node" and ch[0][1] == "Source" and ch[2][0] == "node" and ch[2][1] == "Index" and len(ch[0][2]) == 1 and len(ch[2][2]) == 1:
+                return ("index", simp(ch[0][2][0]), simp(ch[2][2][0]))
+            if kind == "PropagateExpr" and len(ch) == 3:
+                return ("try", simp(ch[0]))
+            if kind == "Path" and len(ch) == 3 and ch[2][0] == "tok":
+                return ("path", simp(ch[0]), ch[2][1])
             return ("?" + kind,) + tuple(simp(c) for c in ch)
         return simp(top[0])
 
@@ -427,6 +469,14 @@ def r24e(ctx, run):
             return "(%s)^" % show(t[1]) if not isinstance(t[1], str) else "%s^" % t[1]
         if t[0] == "pre":
             return "%s%s" % (t[1], show(t[2]) if isinstance(t[2], str) else "(%s)" % show(t[2]))
+        if t[0] == "call":
+            return "%s(%s)" % (show(t[1]) if isinstance(t[1], str) else "{%s}" % show(t[1]), ", ".join(show(x) for x in t[2]))
+        if t[0] == "index":
+            return "%s[%s]" % (show(t[1]) if isinstance(t[1], str) else "{%s}" % show(t[1]), show(t[2]))
+        if t[0] == "path":
+            return "%s.%s" % (show(t[1]) if isinstance(t[1], str) else "{%s}" % show(t[1]), t[2])
+        if t[0] == "try":
+            return "%s.try" % (show(t[1]) if isinstance(t[1], str) else "{%s}" % show(t[1]))
         return repr(t)
     seqs = []
     allops = [op for ops in LEVELS for op in ops]
@@ -451,6 +501,16 @@ def r24e(ctx, run):
         if len(ops) > 1:
             seqs.append(["a", ops[0], "b", ops[-1], "c"])
             seqs.append(["a", ops[-1], "b", ops[0], "c", "^"])
+    # the other postfix operators (call, index, member, `.try`): each applies to what it follows, in every order of two, also behind a dereference,
+    # inside the operand of a prefix operator, and next to a binary operator
+    POST = {"call": ["(", "x", ")"], "call0": ["(", ")"], "call2": ["(", "x", ",", "y", ")"], "index": ["[", "x", "]"], "member": [".", "f"], "try": [".", "try"], "deref": ["^"]}
+    for n1, p1 in POST.items():
+        seqs.append(["a"] + p1)
+        for n2, p2 in POST.items():
+            seqs.append(["a"] + p1 + p2)
+    seqs += [["a", "[", "b", "]", "[", "c", "]", "(", "d", ")"], ["a", ".", "f", "[", "b", "]", "(", "c", ")", "^"], ["a", "^", "[", "b", "]", "(", "c", ")"],
+             ["-", "a", "(", "b", ")"], ["^", "a", "[", "b", "]"], ["-", "a", "[", "b", "]", "(", "c", ")"], ["a", "+", "b", "(", "c", ")"], ["a", "*", "b", "[", "c", "]", "+", "d"],
+             ["a", "(", "b", "+", "c", ")"], ["a", "[", "b", "*", "c", "]", "(", "d", ")"], ["a", "(", "b", "[", "c", "]", "(", "d", ")", ")"]]
     bad, n = None, 0
     for toks in seqs:
         n += 1
@@ -466,14 +526,14 @@ def r24e(ctx, run):
         raise LookupError("token sequences: %d" % n)
     run.check(bad is None, fn.site(), "parse_expr_bp builds the documented tree on %d token sequences (level pairs, postfix `^` in every position)" % n, "parse_expr_bp", "trees",
               fn.file, fn.ln, "`%s` parses as %s; the documented precedence gives %s: %s" % (
-                  " ".join(bad[0]), show(bad[1]) if not isinstance(bad[1], str) or not (bad[1].startswith("cannot") or bad[1].startswith("a syntax error")) else bad[1], show(bad[2]),
-                  ("a prefix operator takes its operand without the operand's trailing `^` (`^foo^` is `(^foo)^`)" if bad[0][0] in PREFIX or any(x in PREFIX and j > 0 and bad[0][j - 1] in level for j, x in enumerate(bad[0])) else "a postfix operator belongs to the operand it follows, not to the binary expression") if "^" in bad[0] else "tighter levels nest deeper, equal levels nest to the left") if bad else "")
+                  " ".join(bad[0]), ("an incomplete parse: %d of %d tokens consumed" % (bad[1][1], len(bad[0]))) if isinstance(bad[1], tuple) and bad[1] and bad[1][0] == "incomplete" else (show(bad[1]) if not isinstance(bad[1], str) or not (bad[1].startswith("cannot") or bad[1].startswith("a syntax error")) else bad[1]), show(bad[2]),
+                  ("a prefix operator takes its operand without the operand's trailing `^` (`^foo^` is `(^foo)^`)" if bad[0][0] in PREFIX or any(x in PREFIX and j > 0 and bad[0][j - 1] in level for j, x in enumerate(bad[0])) else "a postfix operator belongs to the operand it follows, not to the binary expression") if "^" in bad[0] else ("a call, index, member access or `.try` applies to the operand it follows, whatever that operand is made of" if any(x in ("(", "[", ".") for x in bad[0]) else "tighter levels nest deeper, equal levels nest to the left")) if bad else "")
 
 
 def rules(ctx):
     return [
         Rule("R24.a", "binding-power table equals the documented five left-associative levels; entry power 0", 14, r24a),
-        Rule("R24.e", "the Pratt loop evaluated on token sequences builds the documented tree (level pairs; postfix `^` in every position)", 1, r24e),
+        Rule("R24.e", "the Pratt loop evaluated on token sequences builds the documented tree (level pairs; postfix `^`, call, index, member, `.try` in every order of two)", 1, r24e),
         Rule("R24.b", "operator inventories agree: tokenizer.txt, parser sets, ast::BinaryOp/UnaryOp, hir lowering, quick-assign set", 45, r24b),
         Rule("R24.d", "redundant parentheses stay parentheses: parse_lambda's look-ahead evaluated on token sequences (groups, nested groups, parameter lists, empty groups)", 19, r24d),
         Rule("R24.c", "prefix operators parse their operand without the binary loop; post operators first", 5, r24c),
